@@ -14,7 +14,8 @@ def _handler(signum, frame):
 
 def call_with_limit(seconds, fn, *args, **kwargs):
     old = signal.signal(signal.SIGALRM, _handler)
-    signal.setitimer(signal.ITIMER_REAL, seconds)
+    # repeating: an exception raised inside a gc/weakref callback is swallowed by the interpreter
+    signal.setitimer(signal.ITIMER_REAL, seconds, 0.25)
     try:
         return fn(*args, **kwargs)
     finally:
